@@ -1,7 +1,7 @@
 """Property id -> check function; replay of a recorded violation."""
 import json
 
-from . import eprops, framework as fw, record, c18, c17, optim, c10, classprops, c16
+from . import eprops, framework as fw, record, c18, c17, optim, c10, classprops, c16, c15
 
 CHECKS = {}
 for _p in ("C01", "C02", "C03", "C04", "C08", "C09", "C11", "C12"):
@@ -16,6 +16,7 @@ CHECKS["C13"] = classprops.check_c13
 CHECKS["C14"] = classprops.check_c14
 CHECKS["C19"] = classprops.check_c19
 CHECKS["C16"] = c16.check
+CHECKS["C15"] = c15.check
 CHECKS["C09"] = c10.check_c09
 
 
